@@ -280,7 +280,7 @@ func c07RaceMain(seed int64, n int) int {
 					}
 					var op Op
 					if ev == "RoundStarted" {
-						op = chooseAction(r, s, c)
+						op = chooseAction(r, s, c, 0)
 					} else {
 						op = Op{Name: expectedTableOp(ev), Seat: -1}
 					}
